@@ -90,7 +90,8 @@ def case_function(case):
         shp._is_zero, sympy.det, sympy.simplify = o_zero, o_det, o_simplify
     out["events"] = events
     # ---- end-to-end: analysis + stepping
-    indict = {"dynamics": [{"expression": "g = " + f}], "parameters": {k: v for k, v in PARAMS.items() if k in f}}
+    vname = case.get("name", "g")
+    indict = {"dynamics": [{"expression": vname + " = " + f}], "parameters": {k: v for k, v in PARAMS.items() if k in f}}
     if tsym != "t":
         indict["options"] = {"input_time_symbol": tsym}
     try:
@@ -204,6 +205,9 @@ def run(ctx, driver):
                 "distinct = distinct definitions; non-trivial = order >= 2 or a rejection; (c) every function is analysed a second time with the analytic solver disabled and f, f', ... must satisfy the returned ODE")
     fam = [x for x in FAMILY if quick is False or x[2] == "q"]
     cases = [{"f": f, "order": o, "seed": ctx.seed * 1000 + i} for i, (f, o, _) in enumerate(fam)]
+    # the same kernels under a variable name made of the marker's letters (`d`, `d__d`: the propagator symbols of (d, d__d) and (d__d, d) print alike)
+    cases += [{"f": f, "order": o, "seed": ctx.seed * 1000 + 500 + i, "name": nm} for i, (f, o, nm) in
+              enumerate([("t*exp(-t/tau)", 2, "d"), ("sin(w*t)", 2, "d"), ("(e/tau)*t*exp(-t/tau)", 2, "x_")])]
     # the same functions written in a renamed time variable (option input_time_symbol)
     cases += [{"f": f, "order": o, "seed": ctx.seed * 1000 + 500 + i, "tsym": ("time", "s", "t_sim")[i % 3]} for i, (f, o, c) in enumerate(fam) if c == "q" and i % 3 == 1]
     results = pool.run_cases("harness.props.c05", "case_function", cases, timeout=ctx.n(100, 600), init="_init_worker", deadline=ctx.deadline())
